@@ -12,7 +12,8 @@ from harness.common import ImplRaised, drv, guarded, impl, run_check
 
 PID = "C07"
 THEOREMS = ["merger_eq_spec", "mergerFrom_spec", "merge_buffer_independent", "merge_comm", "merge_assoc", "merge_sum",
-            "merge_pointwise", "merger_stream_sorted", "breakLoop_spec", "breakpoints_contract"]
+            "merge_pointwise", "merger_stream_sorted", "breakLoop_spec", "breakpoints_contract",
+            "merger_agg_eq_spec", "mergerAggFrom_spec", "merge_agg_comm", "merge_agg_buffer_independent", "groupAgg_sum", "groupAgg_eq_of"]
 LEVELS = {"merge": "top", "refuses": "top", "limits": "top", "breakpoints": "unit", "agg": "top"}
 DESCRIBE = {
     "merge": "cooler.merge_coolers(out, inputs, mergebuf) for EVERY mergebuf 1..sum(nnz)+1 and every order of the inputs, plus a "
@@ -21,7 +22,8 @@ DESCRIBE = {
     "refuses": "inputs differing in bin table, resolution, chromosome set or storage mode must be refused with an error",
     "limits": "values near the limits of the value dtype: the stored value equals the exact aggregate or the call errs",
     "breakpoints": "contract `validBreakpoints` evaluated by Lean on the real merge_breakpoints(indexes, bufsize) output",
-    "agg": "merge with a non-default aggregation (max/min) on an extra column vs a per-key aggregate computed by the Lean key grouping",
+    "agg": "merge_coolers(columns=[count, w], agg={w: max|min|sum|first|last}) for several merge buffers vs Lean `mergeSpecAgg` "
+           "(= streaming `mergerAgg` for any valid partition and ANY aggregation function: theorem merger_agg_eq_spec)",
 }
 RULE = ("k = 1..3 (quick) / 1..4 (thorough) inputs over a common table of n<=5 bins (empty, disjoint supports, identical supports, rows "
         "with leading empties, random), symmetric and square; mergebuf exhaustive 1..sum(nnz)+1; all k! input orders; nested merges; "
@@ -29,7 +31,7 @@ RULE = ("k = 1..3 (quick) / 1..4 (thorough) inputs over a common table of n<=5 b
 EXHAUSTIVE = {"quick": False, "thorough": False}
 TRUSTED = ["pandas concat/groupby(sort=True).aggregate and h5py dtype conversion are primitives",
            "merge partition (merge_breakpoints) is a free unit checked by contract"]
-ASSUMPTIONS = ["integer counts; aggregation 'sum' in the proved model (other aggregations are checked by correspondence only)"]
+ASSUMPTIONS = ["integer value columns; aggregation functions are modelled as List Int -> Int applied to a pixel's values in input order"]
 CHUNK = 1
 
 
@@ -157,31 +159,34 @@ def _breakpoints(case):
 
 
 def _agg(case):
+    """merge with a requested aggregation on an extra INTEGER value column `w` (count stays summed): both columns vs Lean"""
     d = gen.tmpdir()
     tag = os.getpid()
     n = case["n"]
     bins = gen.layout_bins([n])
     paths = []
     out = os.path.join(d, f"g-{tag}-out.cool")
+    wval = lambda k, v: v * 3 - 7 * k + (k % 2) * 11          # distinct per input, may be negative
     try:
         for k, px in enumerate(case["inputs"]):
             p = os.path.join(d, f"g-{tag}-{k}.cool")
-            gen.write_cooler(p, bins, px, extra={"w": [float(v * 2 + k) for _, _, v in px]}, columns=["count", "w"],
-                             dtypes={"w": "float64"})
+            gen.write_cooler(p, bins, px, extra={"w": np.array([wval(k, v) for _, _, v in px], dtype=np.int64)},
+                             columns=["count", "w"], dtypes={"w": "int64"})
             paths.append(p)
-        impl(cooler.merge_coolers, out, paths, mergebuf=case["mergebuf"], columns=["count", "w"], agg={"w": case["agg"]})
-        t = cooler.Cooler(out).pixels()[:]
-        got = {(int(a), int(b)): (int(c), float(w)) for a, b, c, w in zip(t["bin1_id"], t["bin2_id"], t["count"], t["w"])}
-        m = drv().ask("C07.merge", inputs=case["inputs"], n=n, mergebuf=case["mergebuf"])
-        # count column: exact sum (Lean); w column: per-key max/min over the inputs' values (keys from the Lean grouping)
-        keys = [(p[0], p[1]) for p in m["spec"]]
-        if sorted(got) != keys or [got[k][0] for k in keys] != [p[2] for p in m["spec"]]:
-            return {"mismatch": True, "what": "count column under custom agg", "impl": sorted(got.items()), "model": m["spec"]}
-        f = max if case["agg"] == "max" else min
-        for key in keys:
-            vals = [float(v * 2 + k) for k, px in enumerate(case["inputs"]) for (i, j, v) in px if (i, j) == key]
-            if got[key][1] != f(vals):
-                return {"mismatch": True, "what": f"w column agg={case['agg']}", "key": key, "impl": got[key][1], "expected": f(vals)}
+        w_inputs = [[[i, j, wval(k, v)] for i, j, v in px] for k, px in enumerate(case["inputs"])]
+        for mb in case["mergebufs"]:
+            impl(cooler.merge_coolers, out, paths, mergebuf=mb, columns=["count", "w"], agg={"w": case["agg"]})
+            t = cooler.Cooler(out).pixels()[:]
+            got_c = [[int(a), int(b), int(c)] for a, b, c in zip(t["bin1_id"], t["bin2_id"], t["count"])]
+            got_w = [[int(a), int(b), int(w)] for a, b, w in zip(t["bin1_id"], t["bin2_id"], t["w"])]
+            mc = drv().ask("C07.merge", inputs=case["inputs"], n=n, mergebuf=mb)
+            mw = drv().ask("C07.merge_agg", inputs=w_inputs, n=n, mergebuf=mb, agg=case["agg"])
+            assert mw["l1_agrees"], "theorem merger_agg_eq_spec contradicted"
+            if got_c != mc["spec"]:
+                return {"mismatch": True, "mergebuf": mb, "what": "count column (sum) under a custom agg on another column",
+                        "impl": got_c, "model": mc["spec"]}
+            if got_w != mw["spec"]:
+                return {"mismatch": True, "mergebuf": mb, "what": f"column w, agg={case['agg']}", "impl": got_w, "model": mw["spec"]}
         return None
     finally:
         for p in paths + [out]:
@@ -264,8 +269,10 @@ def cases(tier, rng):
         yield "breakpoints", {"indexes": idx, "bufsizes": list(range(1, min(tot, 12) + 2)) + [10 ** 6]}
     for _ in range(30 if thorough else 8):
         n = rng.randint(2, 5)
-        yield "agg", {"n": n, "inputs": _inputs(rng, n, True, rng.randint(2, 3)), "mergebuf": rng.randint(1, 9),
-                      "agg": rng.choice(["max", "min"])}
+        ins = _inputs(rng, n, True, rng.randint(2, 3))
+        tot = sum(len(x) for x in ins)
+        yield "agg", {"n": n, "inputs": ins, "mergebufs": sorted({1, 2, rng.randint(1, tot + 1), tot + 1}),
+                      "agg": rng.choice(["max", "min", "sum", "first", "last"])}
 
 
 def shrink(name, case):
